@@ -1,6 +1,63 @@
-/- Driver/C16 — stub until the property's model driver is written. -/
+/-
+Driver/C16 — runs the executable ZBSDIFF model (builders, control-block codec, both patchers) on
+protocol lines. Stateful: `begin <old> <new>` sets the pair.
+-/
 import Driver.Common
-open Drv
+import Cascette.Model.Bspatch
+open Cascette Drv
+open Cascette.Model.Bspatch
+
+structure St where
+  old : Bytes := []
+  new : Bytes := []
+
+def intText (i : Int) : String := if i < 0 then "-" ++ toString i.natAbs else toString i.toNat
+
+def ctlText (cs : List Spec.Bspatch.Ctl) : String :=
+  if cs.isEmpty then "-" else
+  ";".intercalate (cs.map fun c => toString c.diff ++ "," ++ toString c.extra ++ "," ++ intText c.seek)
+
+def buildText : Except Err Patch → String
+  | .error e => e.text
+  | .ok p => "ctl=" ++ ctlText p.ctl ++ " raw=" ++ hexOf (encodeCtl p.ctl) ++ " diff=" ++ hexOf p.diff ++ " extra=" ++ hexOf p.extra ++ " out=" ++ toString p.outSize
+
+def applyText : Except Err Bytes → String
+  | .error e => e.text
+  | .ok o => hexOf o
+
+def parseSa (s : String) : Option (Array Nat) :=
+  if s == "-" then some #[] else
+  (s.splitOn ",").foldl (fun acc t => match acc, t.toNat? with
+    | some a, some n => some (a.push n)
+    | _, _ => none) (some #[])
+
+def handle (st : St) : List String → St × String
+  | ["begin", o, n] =>
+    match parseHex o, parseHex n with
+    | some o, some n => ({ old := o, new := n }, "ok")
+    | _, _ => (st, "bad-op")
+  | ["build", "simple"] => (st, buildText (simple st.new))
+  | ["build", "chunked", blk] =>
+    match blk.toNat? with
+    | some b => (st, buildText (chunked b st.old st.new))
+    | none => (st, "bad-op")
+  | ["build", "suffix", sa] =>
+    match parseSa sa with
+    | some sa => (st, buildText (suffix sa st.old st.new))
+    | none => (st, "bad-op")
+  | ["apply", "mem", c, d, e, out] =>
+    match parseHex c, parseHex d, parseHex e, out.toNat? with
+    | some c, some d, some e, some out => (st, applyText (applyBytes none st.old c d e out))
+    | _, _, _, _ => (st, "bad-op")
+  | ["apply", "stream", buf, c, d, e, out] =>
+    match buf.toNat?, parseHex c, parseHex d, parseHex e, out.toNat? with
+    | some b, some c, some d, some e, some out => (st, applyText (applyBytes (some b) st.old c d e out))
+    | _, _, _, _, _ => (st, "bad-op")
+  | ["apply", "streamc", caller, buf, c, d, e, out] =>
+    match caller.toNat?, buf.toNat?, parseHex c, parseHex d, parseHex e, out.toNat? with
+    | some k, some b, some c, some d, some e, some out => (st, applyText (applyBytesStreamCaller k b st.old c d e out))
+    | _, _, _, _, _, _ => (st, "bad-op")
+  | _ => (st, "bad-op")
 
 def main : IO Unit := do
-  loopPure (← IO.getStdin) (← IO.getStdout) (fun _ => "bad-op")
+  loopState (← IO.getStdin) (← IO.getStdout) handle ({} : St)
